@@ -18,6 +18,13 @@ def _plan(tier, seed, section):
     def add(tag, n, iters):
         for _ in range(n):
             runs.append((tag, section, rng.choice([2, 3, 4, 8, 16]), iters, rng.randrange(1, 10 ** 9)))
+    if section == "dl":
+        # the dynamic loader synchronises with a lock inside the uninstrumented ld.so, which ThreadSanitizer cannot see
+        # (reports in _dl_close_worker on the unchanged tree): this section is decided by the serial-vs-concurrent
+        # comparison on ASan and uninstrumented builds only
+        add("gasan", 2 if tier == "quick" else 12, 300)
+        add("plain", 2 if tier == "quick" else 24, 1500)
+        return runs
     if tier == "quick":
         add("gtsan", 2, 300)
         add("plain", 2, 1500)
@@ -33,6 +40,8 @@ def _run(arg):
     exe, r = arg
     env = dict(os.environ)
     env.update(driver.SAN_ENV)
+    if r[1] == "dl":
+        env["NITRO_VERIF_LIBA"] = build.build_shared("plain", "testlib_a.c", "libnitro_verif_a.so")
     try:
         p = subprocess.run([exe] + [str(x) for x in r[1:]], capture_output=True, env=env, timeout=900)
     except subprocess.TimeoutExpired:
@@ -44,7 +53,7 @@ def phase(run_, section, tier, counters):
     """runs the section; reports violations on run_; adds to counters; returns the number of runs
     (the calls made inside the runs are reported as counters, not as evaluations)"""
     runs = _plan(tier, run_.seed, section)
-    exes = {tag: build.build_exe(tag, ["mtindep.cpp"], build.OPTIONS_SRCS) for tag in sorted({r[0] for r in runs})}
+    exes = {tag: build.build_exe(tag, ["mtindep.cpp"], build.OPTIONS_SRCS, link=["-ldl"]) for tag in sorted({r[0] for r in runs})}
     calls = 0
     for r, rc, out, err, wd in optrun.pmap(_run, [(exes[r[0]], r) for r in runs]):
         tag, sec, threads, iters, seed = r
@@ -80,7 +89,7 @@ def phase(run_, section, tier, counters):
 
 
 def replay(run_, case, counters):
-    exe = build.build_exe(case["build"], ["mtindep.cpp"], build.OPTIONS_SRCS)
+    exe = build.build_exe(case["build"], ["mtindep.cpp"], build.OPTIONS_SRCS, link=["-ldl"])
     for k in range(10):
         r = (case["build"], case["section"], case["threads"], case["iterations"], case["seed"])
         _, rc, out, err, wd = _run((exe, r))
